@@ -1,18 +1,34 @@
 (* C14 — constant visibility follows file scope.
-   Theorems about the Context model (Asm/CtxModel.v); the visibility relation itself (which name with which value is
-   visible at which use site) is the executable oracle Asm/ScopeSpec.v, checked on the implementation's output for
-   generated multi-file projects by the correspondence stream of ./check C14.
+   Theorems about the Context model (Asm/CtxModel.v); the oracle is Asm/ScopeSpec.v.  Proofs: Asm/ScopeProofs.v (monotone,
+   diagnostics), ScopeProofs2.v + ScopeIso.v (isolation), ScopeValue.v (same value, lookup scope, use-site equations),
+   ScopeComplete.v (same value on success), ScopeProv.v (provenance), ScopeRefine.v + ScopeRefineEx.v (tables |= ScopeSpec.sources).
 
-   NOT proved (kept as comments):
-     C14_use_sites : pipeline = Success -> every `.du32 x` of occurrence o emits v with ScopeSpec-visible p o x v
-                     (model |= ScopeSpec; decided by the stream on the implementation, not by proof);
-     C14_isolation (full) : after `.include g` the includer's table differs ONLY on names g exported or declared global
-                     (needs a ghost set of exported names; proved below: the table only grows, the table above it is
-                     untouched, the included file starts from the empty table);
+   Fully proved: C14_monotone*, C14_isolation (+ _above, _fresh, _step), C14_same_value (+ _export, _import, _import_check, _global,
+   _global_copy), C14_lookup_scope (+ _top, _instr, _tasks, _end_of_file, _retry, _unknown, _unknown_name, _one_level), C14_diag_* (13),
+   C14_examples.
+
+   NOT proved in full (kept as comments):
+     C14_use_sites : pipeline fs path text = Done Success .. image -> for the project p of (fs, path): every `.du32 x` with index k
+                     in judge_project p has its 4 bytes at j_base + 4k in image equal to the oracle's value (model |= ScopeSpec on
+                     the OUTPUT; decided by the stream on the implementation).
+       Proved instead (the C14_use_sites_partial_ theorems): (a) _now / _later / _retry: the value a `.du32 x` writes is the value of x in the table
+       C14_lookup_scope names (the file's own at the statement and at the end-of-file retry, the includer's at the last retry), as
+       equations; (b) _provenance: every value in a file's final table comes from its own `.const` / label / `.import` / an included
+       file that hands the name up; (c) _sources / _value: for every occurrence related to a ScopeSpec tree by `occ` (any include
+       depth) every value in the occurrence's final table is one of ScopeSpec.sources, so where the oracle names exactly one value the
+       model's table holds no other; _example: `occ` holds for a two-file project with the oracle's own expansion.
+       Missing for the full statement: (1) the bytes in the image: that the written value stays at base + 4k and that a label's address
+       is base + 4k (the layout property C05; `occ` takes a label's value from the model); (2) that the expansion of EVERY project text
+       satisfies `occ` (parser round trip on generated text, resolve_path = plain names) - `occ` is a hypothesis, shown for one
+       project; (3) the converse direction on whole projects (oracle MustDiag => diagnostic, Accept => success) exists only per
+       statement (the C14_diag_ theorems).
+     C14_lookup_scope for instruction operands retried in the includer: only the table-independence (_instr) is proved; "only names
+       declared-but-unvalued reach the includer" is proved for data statements (_retry, _unknown), not through AsmStmtModel.assemble_args.
      "never Panic" for arbitrary states (needs the invariant that tables hold no register names); the diagnostics below
      are equations `... = Ret _ (push_error ...)`, so in the stated situations the model does not panic. *)
 From Coq Require Import ZArith NArith List Bool String.
-From Trion Require Import Text.Types Asm.ScopeSpec Asm.CtxModel Asm.ScopeProofs Asm.Ctx06Proofs.
+From Trion Require Import Text.Types Asm.ScopeSpec Asm.CtxModel Asm.ScopeProofs Asm.Ctx06Proofs Asm.ScopeProofs2 Asm.ScopeIso Asm.ScopeValue Asm.ScopeProv Asm.ScopeRefine Asm.ScopeRefineEx Asm.ScopeComplete.
+From Trion Require Expr.EvalModel Text.ParseModel.
 Import ListNotations.
 Open Scope N_scope.
 
@@ -39,14 +55,204 @@ Proof. exact insert_constant_tm. Qed.
 Theorem C14_monotone_defer : forall st n r x st', defer_constant st n r = Ret x st' -> tmono st st'.
 Proof. exact defer_constant_tm. Qed.
 
-(* isolation (partial): an included file cannot touch the table above its includer, and it starts from the empty table
-   with its includer's table as the only other one it can reach *)
-Theorem C14_isolation_partial_above : forall dbg fs fuel st data path r st',
+(* ---- C14_isolation.  Definitions (Asm/ScopeIso.v):
+     file_hands data n   the text `data` has a statement `.global n;` or `.export n;` of its own (parse_source data contains
+                         IOk (EDirective d [AIdent n]) with dir_of d = DGlobal or DExport) - not a statement of a file it includes;
+     assemble_open       Context::assemble up to, not including, the drop of the PathFrame: its final state st2 is the state
+                         in which the included file ends (locals st2 = the included file's own table, globals st2 = its includer's);
+     handed_up S t t' t2 for every name n:  t' n = t n,  or  S n and either (t n absent, t' n declared) or
+                         (t n absent or declared, t' n = Some v and t2 n = Some v).
+   After `.include g` (any nesting below g) the includer's own table t has become t' which differs from t only on names g hands
+   up, each with the value g's own table t2 has when g ends (or, for a `.global` whose file failed before its end-of-file copy,
+   the bare declaration); g's table t2 is gone (locals st' is t' again); the table above the includer, the path stack and the
+   current file name are as before. *)
+Theorem C14_isolation : forall dbg fs fuel st data path r st' t,
+  assemble dbg fs (S fuel) st data path = Ret r st' -> locals st = Some t ->
+  exists st2 t2 t',
+    assemble_open dbg fs (assemble dbg fs fuel) st data path = Ret r st2 /\ locals st2 = Some t2 /\ globals st2 = t' /\
+    locals st' = Some t' /\ globals st' = globals st /\ path_stack st' = path_stack st /\ curr_name st' = curr_name st /\
+    handed_up (file_hands data) t t' t2.
+Proof. exact include_isolation. Qed.
+
+(* the two halves that need no name set: an included file cannot touch the table above its includer, and it (hence also the
+   next sibling) starts from the empty table with its includer's table as the only other one it can reach *)
+Theorem C14_isolation_above : forall dbg fs fuel st data path r st',
   assemble dbg fs fuel st data path = Ret r st' -> locals st <> None -> globals st' = globals st.
 Proof. exact assemble_above_untouched. Qed.
-Theorem C14_isolation_partial_fresh : forall st path,
+Theorem C14_isolation_fresh : forall st path,
   locals (fst (enter_file st path)) = Some [] /\ (forall t, locals st = Some t -> globals (fst (enter_file st path)) = t).
 Proof. exact enter_file_scope. Qed.
+
+(* one statement of an open file (an `.include` of any depth counts as one statement): the file's own table keeps every entry
+   and every value, the includer's table changes only if the statement is `.global n;` / `.export n;`, only on n, and only to
+   the file's own value for n (Hs, Asm/ScopeProofs2.v) *)
+Theorem C14_isolation_step : forall dbg fs fuel st e r st', locals st <> None ->
+  step dbg fs (assemble dbg fs fuel) st e = Ret r st' ->
+  Hs (fun n => exists dn, e_val e = EDirective dn [AIdent n] /\ up_dir dn) st st'.
+Proof. exact include_step. Qed.
+
+(* ---- C14_same_value: each hand-over puts the SAME value on the other side (C14_monotone keeps it there; C14_isolation gives
+   the file-level form: every value the includer's table gained is the included file's final value) ---- *)
+Theorem C14_same_value_export : forall st l c x t st', dir_global st l c DExport [AIdent x] = Ret None st' -> locals st = Some t ->
+  exists v, tbl_get t x = Some (Some v) /\ tbl_get (globals st') x = Some (Some v) /\ locals st' = Some t.
+Proof. exact export_same_value. Qed.
+(* .import: the includer's value, or - the includer has only declared x - a declaration here plus the scheduled check that x
+   gets no value in this file (the repaired defect 976f0cc) *)
+Theorem C14_same_value_import : forall st l c x t st', dir_global st l c DImport [AIdent x] = Ret None st' -> locals st = Some t ->
+  globals st' = globals st /\
+  ((exists v, tbl_get (globals st) x = Some (Some v) /\ olook (locals st') x = Some (Some v)) \/
+   (tbl_get (globals st) x = Some None /\ tbl_get t x = None /\ olook (locals st') x = Some None /\
+    exists lt, local_tasks st = Some lt /\ local_tasks st' = Some (lt ++ [ImportCheckTask x l c]))).
+Proof. exact import_same_value. Qed.
+Theorem C14_same_value_import_check : forall dbg st x l c st', run_task dbg st (ImportCheckTask x l c) = Ret None st' ->
+  st' = st /\ forall v, olook (locals st) x <> Some (Some v).
+Proof. exact import_check_passes. Qed.
+Theorem C14_same_value_global : forall st l c x st', dir_global st l c DGlobal [AIdent x] = Ret None st' ->
+  tbl_get (globals st) x = None /\
+  ((exists v, olook (locals st) x = Some (Some v) /\ tbl_get (globals st') x = Some (Some v) /\ locals st' = locals st) \/
+   (tbl_get (globals st') x = Some None /\ olook (locals st') x = Some None /\
+    exists lt, local_tasks st = Some lt /\ local_tasks st' = Some (lt ++ [GlobalTask x l c]))).
+Proof. exact global_same_value. Qed.
+Theorem C14_same_value_global_copy : forall dbg st x l c st', run_task dbg st (GlobalTask x l c) = Ret None st' ->
+  exists v, olook (locals st) x = Some (Some v) /\ tbl_get (globals st') x = Some (Some v) /\ locals st' = locals st.
+Proof. exact global_task_same_value. Qed.
+
+(* file level, both directions: C14_isolation says every value the includer's table GAINED across `.include g` is g's final
+   value for that name; conversely, when g ends without error (result None) EVERY name g hands up (`.export n;` / `.global n;`
+   among g's own statements) has a value in g's table when g ends and the includer's table afterwards has the same value *)
+Theorem C14_same_value : forall dbg fs fuel st data path st' t,
+  assemble dbg fs (S fuel) st data path = Ret None st' -> locals st = Some t ->
+  exists st2 t2 t',
+    assemble_open dbg fs (assemble dbg fs fuel) st data path = Ret None st2 /\ locals st2 = Some t2 /\ locals st' = Some t' /\
+    forall n, file_hands data n -> exists v, tbl_get t2 n = Some (Some v) /\ tbl_get t' n = Some (Some v).
+Proof. exact include_same_value. Qed.
+
+(* ---- C14_lookup_scope ---- *)
+(* while a file is open every evaluation (directive arguments, data and instruction operands, retried tasks) reads that file's
+   own table and nothing else; with no file open it reads the table above the root *)
+Theorem C14_lookup_scope : forall st a p ps t, path_stack st = p :: ps -> locals st = Some t ->
+  ctx_eval st a = evaluate_mut (fun n => Some (lookup_of t n)) is_register a.
+Proof. exact ctx_eval_reads_local. Qed.
+Theorem C14_lookup_scope_top : forall st a, path_stack st = [] ->
+  ctx_eval st a = evaluate_mut (fun n => Some (lookup_of (globals st) n)) is_register a.
+Proof. exact ctx_eval_reads_top. Qed.
+Theorem C14_lookup_scope_instr : forall st1 st2 a p1 ps1 p2 ps2, path_stack st1 = p1 :: ps1 -> path_stack st2 = p2 :: ps2 ->
+  locals st1 = locals st2 -> instr_ev st1 a = instr_ev st2 a /\ ctx_eval_panics st1 a = ctx_eval_panics st2 a.
+Proof. exact instr_ev_same_table. Qed.
+(* the end-of-file retry of a data statement in its own file (table t): it is handed to the includer exactly when the
+   evaluation is deferred, and the reported cause is a name t has DECLARED BUT NOT VALUED (.global / .import of a declared
+   name); a name t lacks is a diagnostic in the file itself - the includer's table is never consulted for it; and the retry
+   in the includer is the last (a name unvalued there too is a diagnostic: one level) *)
+Theorem C14_lookup_scope_retry : forall dbg st d a' ch c p ps t, path_stack st = p :: ps -> locals st = Some t ->
+  ctx_eval st (de_arg d) = EvOk a' (EvalModel.Deferred ch c) ->
+  run_task dbg st (DataTask d false) = Ret None (set_global_tasks st (global_tasks st ++ [DataTask (de_set_arg d a') true])) /\
+  tbl_get t c = Some None /\ is_register c = false.
+Proof. exact data_retry_deferred. Qed.
+Theorem C14_lookup_scope_unknown : forall dbg st d a' e, ctx_eval st (de_arg d) = EvErr a' e ->
+  run_task dbg st (DataTask d false) = Ret (Some Trivial) (push_error_in st (de_file d) (de_line d) (de_col d) (KApply AEval)).
+Proof. exact data_retry_unknown. Qed.
+Theorem C14_lookup_scope_unknown_name : forall st a a' n p ps t, path_stack st = p :: ps -> locals st = Some t ->
+  ctx_eval st a = EvErr a' (EENoVar n) -> tbl_get t n = None /\ is_register n = false.
+Proof. exact ctx_eval_unknown. Qed.
+Theorem C14_lookup_scope_one_level : forall dbg st d a' ch c, ctx_eval st (de_arg d) = EvOk a' (EvalModel.Deferred ch c) ->
+  run_task dbg st (DataTask d true) =
+  Ret (Some Trivial) (push_error_in st (de_file d) (de_line d) (de_col d) (KApply AConstNotFound)).
+Proof. exact data_retry_includer_deferred. Qed.
+
+(* ---- C14_use_sites (partial): the value a `.du32 x;` emits is the value of x in the table the C14_lookup_scope theorems
+   name - as equations on the model: at the statement (x valued in the open file's table: these bytes, now), otherwise a
+   placeholder and a task; at a retry (end of the file: the file's table; once more in the includer: the includer's) ---- *)
+Theorem C14_use_sites_partial_now : forall dbg st l c k x p ps t s v,
+  path_stack st = p :: ps -> locals st = Some t -> active st = Active s ->
+  has_remaining dbg s (dk_size k) = SOk true -> is_register x = false -> tbl_get t x = Some (Some v) ->
+  ((0 <=? v)%Z && (v <=? dk_max k)%Z = true) ->
+  dir_data dbg st l c k [AIdent x] =
+  (let d := mkDE k (curr_name st) l c (curr_addr s) (AConst v) in
+   do r, st1 <- write_data dbg st d (le_n (dk_size k) (Z.to_N v));
+   match r with
+   | None => Ret None st1
+   | Some _ =>
+       do w, st2 <- write_data dbg st1 d (padding (dk_size k));
+       match w with Some lv => Ret (Some lv) st2 | None => do _, st3 <- add_task st2 (DataTask d false) RLocal; Ret None st3 end
+   end).
+Proof. exact use_now. Qed.
+Theorem C14_use_sites_partial_later : forall dbg st l c k x p ps t s,
+  path_stack st = p :: ps -> locals st = Some t -> active st = Active s ->
+  has_remaining dbg s (dk_size k) = SOk true -> is_register x = false ->
+  tbl_get t x = None \/ tbl_get t x = Some None ->
+  dir_data dbg st l c k [AIdent x] =
+  (let d := mkDE k (curr_name st) l c (curr_addr s) (AIdent x) in
+   do w, st2 <- write_data dbg st d (padding (dk_size k));
+   match w with Some lv => Ret (Some lv) st2 | None => do _, st3 <- add_task st2 (DataTask d false) RLocal; Ret None st3 end).
+Proof. exact use_later. Qed.
+(* eval_table st = the open file's own table, or the table above the root when no file is open *)
+Theorem C14_use_sites_partial_retry : forall dbg st d x t g, de_arg d = AIdent x -> eval_table st = Some t -> is_register x = false ->
+  run_task dbg st (DataTask d g) =
+  match tbl_get t x with
+  | None => Ret (Some Trivial) (push_error_in st (de_file d) (de_line d) (de_col d) (KApply AEval))
+  | Some None =>
+      if g then Ret (Some Trivial) (push_error_in st (de_file d) (de_line d) (de_col d) (KApply AConstNotFound))
+      else Ret None (set_global_tasks st (global_tasks st ++ [DataTask d true]))
+  | Some (Some v) =>
+      if (0 <=? v)%Z && (v <=? dk_max (de_kind d))%Z then
+        do r, st1 <- write_data dbg st (de_set_arg d (AConst v)) (le_n (dk_size (de_kind d)) (Z.to_N v));
+        Ret (match r with None => None | Some lv => Some lv end) st1
+      else Ret (Some Trivial) (push_error_in st (de_file d) (de_line d) (de_col d) (KApply ADataRange))
+  end.
+Proof. exact use_retry. Qed.
+
+(* no deferred task and no end-of-file loop writes the file's own table: the table a file ends with is the one its last
+   statement left, and it is the table every retry in that file reads *)
+Theorem C14_lookup_scope_tasks : forall dbg st t r st', run_task dbg st t = Ret r st' -> locals st' = locals st.
+Proof. exact run_task_ls. Qed.
+Theorem C14_lookup_scope_end_of_file : forall dbg rounds tasks st r r' st',
+  local_loop dbg rounds tasks st r = Ret r' st' -> locals st' = locals st.
+Proof. exact local_loop_ls. Qed.
+
+(* provenance (model terms): every entry with a value in the table a file ends with was put there by one of the file's own
+   statements e, reached in state sa (def_by, Asm/ScopeProv.v): its `.const n, a` (a evaluates to v in sa), its label n (v = the
+   current address), its `.import n` (the includer's table has n = v in sa), or its `.include` of a file that has a statement
+   `.global n` / `.export n` and ends with n = v in its own table.  Nothing else: no sibling, no includer without `.import`,
+   no included file without `.export` / `.global`. *)
+Theorem C14_use_sites_partial_provenance : forall dbg fs fuel st data path r st2 items tail,
+  assemble_open dbg fs (assemble dbg fs fuel) st data path = Ret r st2 -> parse_source data = Parsed items tail ->
+  exists t2, locals st2 = Some t2 /\
+    forall n v, tbl_get t2 n = Some (Some v) ->
+      exists pre e post sa, items = pre ++ ParseModel.IOk e :: post /\
+        run_items dbg fs (assemble dbg fs fuel) pre (fst (enter_file st path)) = Ret None sa /\
+        def_by dbg fs (assemble dbg fs fuel) (assemble dbg fs (Nat.pred fuel)) e sa n v.
+Proof. exact assemble_provenance. Qed.
+
+(* model |= ScopeSpec, table level, every include depth.  `occ dbg fs f st data path t` (Asm/ScopeRefine.v): the text `data`
+   assembled as file `path` from state st with include fuel f is an occurrence with ScopeSpec tree t - statement by statement
+   `.const x, v` / `x:` are IDef (a label carries the address the MODEL gives it), `.global/.import/.export x` are
+   IGlobal/IImport/IExport, `.du32 x` is IUse, `.include "g"` is IChild of an occurrence of the text fs has for g, `.addr` is
+   skipped.  Then every value in the table the occurrence ends with is one of the oracle's `sources` for that name, provided
+   the includer's table at entry is covered by penv (for the root: the empty table, any penv).  Hence where the oracle names
+   exactly one value for x (no duplicate, not invisible), that is the only value the model's table can hold for x - and by
+   C14_use_sites_partial_now / _retry the table's value is what a `.du32 x` emits. *)
+Theorem C14_use_sites_partial_sources : forall dbg fs f st data path t r st2 t2 (penv : str -> list Z),
+  occ dbg fs f st data path t -> assemble_open dbg fs (assemble dbg fs f) st data path = Ret r st2 -> locals st2 = Some t2 ->
+  (forall n v, tbl_get (entry_globals st) n = Some (Some v) -> In v (penv n)) ->
+  forall n v, tbl_get t2 n = Some (Some v) -> In v (sources t penv n).
+Proof. exact occ_sources. Qed.
+Theorem C14_use_sites_partial_value : forall dbg fs f st data path t r st2 t2 (penv : str -> list Z) x v v',
+  occ dbg fs f st data path t -> assemble_open dbg fs (assemble dbg fs f) st data path = Ret r st2 -> locals st2 = Some t2 ->
+  (forall n w, tbl_get (entry_globals st) n = Some (Some w) -> In w (penv n)) ->
+  sources t penv x = [v'] -> tbl_get t2 x = Some (Some v) -> v = v'.
+Proof. exact occ_use_value. Qed.
+
+(* non-vacuity of `occ`: the two-file project  r = `.addr 0x100; .include "c"; .du32 A;`  c = `.const A, 7; .export A;`
+   is an occurrence of exactly the tree the oracle's own expansion gives it; its run ends with A = 7 in the root's table, the
+   single source the oracle names *)
+Theorem C14_use_sites_partial_example :
+  expand_project (mkProject [(ex_src "r", [SAddr 256; SInclude (ex_src "c"); SUse ex_A]);
+                             (ex_src "c", [SConst ex_A 7; SExport ex_A])] (ex_src "r")) = Some (256%Z, ex_tree, 1%N) /\
+  occ false ex_fs 1 init_state ex_r (ex_src "r") ex_tree /\
+  exists r st2 t2,
+    assemble_open false ex_fs (assemble false ex_fs 1) init_state ex_r (ex_src "r") = Ret r st2 /\ locals st2 = Some t2 /\
+    tbl_get t2 ex_A = Some (Some 7%Z) /\ sources ex_tree no_env ex_A = [7%Z].
+Proof. exact (conj ex_expand (conj ex_occ ex_run)). Qed.
 
 (* ---- C14_diagnostics: each listed scope error yields its diagnostic (an equation, hence no panic) ---- *)
 Theorem C14_diag_duplicate_label : forall dbg fs inc st s l c n w t, is_register n = false -> active st = Active s ->
